@@ -138,6 +138,9 @@ func probe(env *caseEnv, sm SM, ap *app) []string {
 type point struct {
 	spec crashSpec
 	nt   []string // non-trivial reasons
+	// live (long runs): the stop follows a log cleanup that had flushed entries of a live height in
+	// the log files written before it
+	live bool
 }
 
 func isBcast(k byte) bool { return k == 'P' || k == 'V' || k == 'C' }
@@ -151,10 +154,14 @@ func isBcast(k byte) bool { return k == 'P' || k == 'V' || k == 'C' }
 //     when a commit callback is still entered afterwards, both outcomes of the hand-over;
 //   - per commit callback: the listener holds the hand-over and the shutdown arrives while it is
 //     blocked; the block writer reports a persist error (Run returns an error by itself).
-func classify(base *rec, nInputs int) []point {
+func classify(base *rec, nInputs int) []point { return classifyFrom(base, nInputs, 0, 0) }
+
+// classifyFrom lists the stop points at effect index >= fromEff (0-based) and the idle shutdowns
+// before script positions >= fromPos (long runs only look at the end of the process life).
+func classifyFrom(base *rec, nInputs, fromEff, fromPos int) []point {
 	eff := base.effects
 	var pts []point
-	for i := range eff {
+	for i := fromEff; i < len(eff); i++ {
 		k := i + 1
 		// state "before effect k" = effects 1..k-1 done; "after effect k" = effects 1..k done.
 		for _, after := range []bool{false, true} {
@@ -183,7 +190,7 @@ func classify(base *rec, nInputs int) []point {
 			pts = append(pts, p)
 		}
 	}
-	for pos := 0; pos <= nInputs; pos++ {
+	for pos := fromPos; pos <= nInputs; pos++ {
 		pts = append(pts, point{spec: crashSpec{graceful: true, gracefulAt: pos}})
 	}
 	// a commit callback the driver still enters once its context is cancelled at effect index `from`:
@@ -194,13 +201,17 @@ func classify(base *rec, nInputs int) []point {
 			lo = from + 1
 		}
 		for j := lo; j < len(eff); j++ {
-			if eff[j].kind == 'O' && (eff[j].call == eff[from].call || (eff[from].replay && eff[j].replay)) {
+			same := eff[j].call == eff[from].call || (eff[from].replay && eff[j].replay)
+			if !same { // effects of one call, and the effects of the replay, are contiguous
+				break
+			}
+			if eff[j].kind == 'O' {
 				return true
 			}
 		}
 		return false
 	}
-	for i := range eff {
+	for i := fromEff; i < len(eff); i++ {
 		k := i + 1
 		lastOfCall := i == len(eff)-1 || eff[i+1].call != eff[i].call
 		for _, after := range []bool{false, true} {
@@ -262,6 +273,7 @@ func (ck *checker) run(cfg *runCfg) *rec {
 	if ck.strict {
 		cfg.pcLimit = 2
 	}
+	cfg.watch = ck.env.long
 	r := runDriver(ck.t, cfg)
 	if !ck.countedStrict && r.strictDefers > 0 {
 		ck.countedStrict = true
@@ -279,10 +291,14 @@ func (ck *checker) describe() string {
 	env := ck.env
 	var b strings.Builder
 	fmt.Fprintf(&b, "node under test = validator %d, heights %d, application values %s\n", env.vs.me, env.heights, map[bool]string{true: "stable", false: "fresh per call"}[env.stable])
+	if env.long {
+		fmt.Fprintf(&b, "LONG RUN: start height %d, filler heights (one round, minimal quorum, no timer fires) %d..%d, then drawn heights up to %d; filler proposers are the senders of the proposals in the script (none = the node itself)\n",
+			env.startH, env.startH, env.fillerTo, env.lastH())
+	}
 	b.WriteString("proposers:")
-	for h := 1; h <= env.heights+1; h++ {
+	for h := env.firstTableH(); h <= env.lastH()+1; h++ {
 		for r := 0; r <= 3; r++ {
-			fmt.Fprintf(&b, " (h%d r%d)=%d", h, r, env.vs.proposerIdx(types.Height(h), types.Round(r)))
+			fmt.Fprintf(&b, " (h%d r%d)=%d", h, r, env.vs.proposerIdx(h, types.Round(r)))
 		}
 	}
 	b.WriteString("\ntimers (slots until firing, -1 never):")
@@ -304,23 +320,55 @@ func (ck *checker) describe() string {
 		fmt.Fprintf(&b, " %s", rVal(&v))
 	}
 	b.WriteString("\nscript:\n")
+	hidden := 0
 	for i, in := range env.inputs {
+		if in.h < env.showFrom {
+			hidden++
+			continue
+		}
+		if hidden > 0 {
+			fmt.Fprintf(&b, "  ... %d inputs of heights < %d not shown\n", hidden, env.showFrom)
+			hidden = 0
+		}
 		fmt.Fprintf(&b, "  in%-3d %s\n", i, in)
 	}
 	return b.String()
+}
+
+func (e *caseEnv) firstTableH() types.Height {
+	if e.tableFrom == 0 {
+		return e.startH
+	}
+	return e.tableFrom
 }
 
 func describeRun(name string, r *rec) string {
 	var b strings.Builder
 	fmt.Fprintf(&b, "--- %s: start height %d, incarnation %d, stop: %s; Run returned %v, blocks persisted %d\n", name, r.cfg.startH, r.cfg.inc, r.cfg.crash, r.runErr, r.persistedCommits())
 	ci := -1
+	showFrom := r.cfg.env.showFrom // long runs: the calls made at lower heights are not shown
+	hidden := 0
 	for i, e := range r.effects {
 		for ci < e.call {
 			ci++
 			c := r.calls[ci]
+			if c.hBefore < showFrom {
+				continue
+			}
 			fmt.Fprintf(&b, "      call%-3d %s%s  => %s\n", ci, map[bool]string{true: "replay ", false: ""}[c.replay], c.desc, strings.Join(c.acts, " | "))
 		}
+		if e.call >= 0 && r.calls[e.call].hBefore < showFrom && !strings.Contains(e.note, "cleanup") {
+			hidden++
+			continue
+		}
+		if hidden > 0 {
+			fmt.Fprintf(&b, "  ... %d effects of calls made at heights < %d not shown\n", hidden, showFrom)
+			hidden = 0
+		}
 		fmt.Fprintf(&b, "  e%-3d %c %s%s\n", i+1, e.kind, e.desc, e.note)
+	}
+	if hidden > 0 {
+		fmt.Fprintf(&b, "  ... %d effects of calls made at heights < %d not shown\n", hidden, showFrom)
 	}
 	for ci++; ci < len(r.calls); ci++ {
 		c := r.calls[ci]
@@ -505,7 +553,7 @@ func (ck *checker) labelBaseline() {
 	}
 }
 
-const propRule = "drawn role/timer tables and input script (proposals, votes, duplicates, equivocation, early next-height and overtaking messages; 1-3 heights) run unstopped on the real driver+state machine+walstore, then stopped at enumerated points (quick: <=10 drawn points per case, one of them inside a commit callback when the script commits, four more non-trivial; thorough: every point): hard kill before/after each effect (crash image); orderly shutdown = context cancelled while idle before a script position, or in the middle of a call before each effect / after the last effect of a call, Run returns and Close() flushes (a commit callback entered after the cancel persists or not, both); commit listener holds the hand-over and the shutdown arrives while the callback is blocked (OnCommit false, block not persisted); block writer reports a persist error (OnCommit false, Run returns an error, Close()). The process is restarted on the resulting directory at (blocks persisted by the harness's block store)+1 and fed the rest of the script (delivered-but-not-durable inputs re-delivered or lost by draw); in 30% of the experiments (thorough: all) the recovering process is stopped too at a drawn effect (kill, 2 in 10 shutdown, 3 in 10 inside a commit callback when it commits) and recovered again; non-trivial = kill between a Flush and the broadcast/commit it covers, between OnCommit and the prune flush, stop while the node is proposer of its current round, shutdown with a commit callback still ahead in the call, stop inside a commit callback (held hand-over or persist error), or second stop during replay"
+const propRule = "LONG RUNS (4 % of the cases, drawn with fair coins): one process life of 250-270 heights (thorough: 30 % of them 512-524) from a drawn start height - filler heights (one round; proposal from a drawn proposer, votes of two or three of the others, drawn sender order/silent validator/local swap; no timer fires; in 3 of 4 heights the first 1-5 messages or the whole first round of the NEXT height overtake the last messages of the height, so the log file holds flushed entries of a live height when the height before it is pruned) followed by 1-3 heights of the ordinary generator - so that the walstore's amortised cleanup after 256 prune records (watermark write, log rotation, obsolete-file removal, per-file height reference counts) happens with the real driver in the loop; the cleanup is observed in the directory, not predicted; 3 stops per long case (thorough 10) drawn from the height before the cleanup to the end of the life, 60 % of them in the stretch 'cleanup has run, next prune not durable yet', all stop kinds below, second stop as below; in 25 % of the long cases whose length allows it the FIRST life is stopped in an early filler height instead and the RECOVERING process lives through > 256 heights and is stopped around its own cleanup (directory then holds the previous life's log file too). SHORT CASES (all others, unchanged): drawn role/timer tables and input script (proposals, votes, duplicates, equivocation, early next-height and overtaking messages; 1-3 heights) run unstopped on the real driver+state machine+walstore, then stopped at enumerated points (quick: <=10 drawn points per case, one of them inside a commit callback when the script commits, four more non-trivial; thorough: every point): hard kill before/after each effect (crash image); orderly shutdown = context cancelled while idle before a script position, or in the middle of a call before each effect / after the last effect of a call, Run returns and Close() flushes (a commit callback entered after the cancel persists or not, both); commit listener holds the hand-over and the shutdown arrives while the callback is blocked (OnCommit false, block not persisted); block writer reports a persist error (OnCommit false, Run returns an error, Close()). The process is restarted on the resulting directory at (blocks persisted by the harness's block store)+1 and fed the rest of the script (delivered-but-not-durable inputs re-delivered or lost by draw); in 30% of the experiments (thorough: all) the recovering process is stopped too at a drawn effect (kill, 2 in 10 shutdown, 3 in 10 inside a commit callback when it commits) and recovered again; non-trivial = kill between a Flush and the broadcast/commit it covers, between OnCommit and the prune flush, stop while the node is proposer of its current round, shutdown with a commit callback still ahead in the call, stop inside a commit callback (held hand-over or persist error), second stop during replay, or (long runs) a stop after an observed log cleanup and before the next durable prune / a second stop around the cleanup of the recovered process"
 
 func TestPropCrashRecovery(t *testing.T) {
 	crashRecovery(t, stats.Budget{Quick: 1000, Thorough: 1000}, false)
@@ -524,7 +572,12 @@ func crashRecovery(t *testing.T, budget stats.Budget, fewPoints bool) {
 	stats.Check(t, budget, propRule,
 		func(rt *rapid.T, c *stats.Case) {
 			n++
-			env := genCase(rt)
+			var env *caseEnv
+			if unif(rt, 1000, "long-run") < longRunPermille {
+				env = genLongCase(rt, stats.Thorough() && !fewPoints)
+			} else {
+				env = genCase(rt)
+			}
 			fresh := rapid.IntRange(0, 9).Draw(rt, "fresh-values") < 7
 			if fresh && known(keyProposerValue) {
 				// known finding: a block builder that cannot reproduce its value after a restart makes the
@@ -537,20 +590,28 @@ func crashRecovery(t *testing.T, budget stats.Budget, fewPoints bool) {
 			defer os.RemoveAll(caseRoot)
 			ck := &checker{t: t, rt: rt, c: c, env: env, root: caseRoot, strict: known(keyStartAlias)}
 			ck.fail = func(key, msg string) { c.Violation(key, "%s", msg) }
-			c.Fp("me%d st%v", env.vs.me, env.stable)
+			c.Fp("me%d st%v start%d", env.vs.me, env.stable, env.startH)
 			for _, in := range env.inputs {
 				c.Fp("%s", in)
 			}
-			for h := 1; h <= env.heights+1; h++ {
+			for h := env.firstTableH(); h <= env.lastH()+1; h++ {
 				for r := 0; r <= 2; r++ {
-					c.Fp("%d", env.vs.proposerIdx(types.Height(h), types.Round(r)))
+					c.Fp("%d", env.vs.proposerIdx(h, types.Round(r)))
 					for s := 0; s < 3; s++ {
-						c.Fp("%d", env.delayOf(timerKey{types.Height(h), types.Step(s), types.Round(r)}))
+						c.Fp("%d", env.delayOf(timerKey{h, types.Step(s), types.Round(r)}))
 					}
 				}
 			}
 			ck.baseline()
 			ck.labelBaseline()
+			if env.long {
+				nTrials := ck.longTrials(rt, fewPoints)
+				c.Sample(func() any {
+					env.showFrom = env.fillerTo - 1
+					return map[string]any{"case": ck.describe(), "uncrashed": describeRun("uncrashed run", ck.base), "crash-points": nTrials}
+				})
+				return
+			}
 			pts := classify(ck.base, len(env.inputs))
 			var chosen []point
 			if stats.Thorough() && !fewPoints {
@@ -610,40 +671,51 @@ func crashRecovery(t *testing.T, budget stats.Budget, fewPoints bool) {
 							}
 							hi = min(n, nr+2)
 						}
-						sp := &crashSpec{k: rapid.IntRange(1, hi).Draw(rt, "second-crash-k"), after: rapid.Bool().Draw(rt, "second-crash-after")}
-						// how the recovering process ends: mostly a kill; else an orderly shutdown at that effect,
-						// or - when it commits (typically while replaying) - a stop inside a commit callback
-						var ocb []int
-						for i, e := range rc.effects {
-							if e.kind == 'O' {
-								ocb = append(ocb, i+1)
-							}
-						}
-						switch x := rapid.IntRange(0, 9).Draw(rt, "second-stop-kind"); {
-						case x < 2:
-							sp.kind, sp.cancelPersists = stopCancel, rapid.Bool().Draw(rt, "second-cancel-persists")
-						case x < 5 && len(ocb) > 0:
-							sp.k, sp.after = ocb[rapid.IntRange(0, len(ocb)-1).Draw(rt, "second-commit-stop")], false
-							sp.kind = stopHold
-							if rapid.Bool().Draw(rt, "second-commit-fails") {
-								sp.kind = stopFail
-							}
-						}
-						return sp
+						return drawSecondSpec(rt, rc, 1, hi)
 					}
 				}
-				ck.trial(p, func(idx int) bool {
-					switch mode {
-					case 0:
-						return true
-					case 1:
-						return false
-					}
-					return rapid.Bool().Draw(rt, "redeliver")
-				}, second)
+				ck.trial(p, redeliverBy(rt, mode), second)
 			}
 			c.Sample(func() any {
 				return map[string]any{"case": ck.describe(), "uncrashed": describeRun("uncrashed run", ck.base), "crash-points": len(chosen)}
 			})
 		})
+}
+
+// redeliverBy: what the peers do with the delivered-but-not-durable inputs after the stop:
+// 0 send all of them again, 1 none, 2/3 drawn per input.
+func redeliverBy(rt *rapid.T, mode int) func(int) bool {
+	return func(int) bool {
+		switch mode {
+		case 0:
+			return true
+		case 1:
+			return false
+		}
+		return rapid.Bool().Draw(rt, "redeliver")
+	}
+}
+
+// drawSecondSpec draws how the recovering process rc ends, at an effect lo..hi (1-based) of its
+// unstopped run: mostly a kill; else an orderly shutdown at that effect, or - when it commits in
+// that range (typically while replaying) - a stop inside a commit callback.
+func drawSecondSpec(rt *rapid.T, rc *rec, lo, hi int) *crashSpec {
+	sp := &crashSpec{k: rapid.IntRange(lo, hi).Draw(rt, "second-crash-k"), after: rapid.Bool().Draw(rt, "second-crash-after")}
+	var ocb []int
+	for i, e := range rc.effects {
+		if e.kind == 'O' && i+1 >= lo && (lo == 1 || i+1 <= hi) {
+			ocb = append(ocb, i+1)
+		}
+	}
+	switch x := rapid.IntRange(0, 9).Draw(rt, "second-stop-kind"); {
+	case x < 2:
+		sp.kind, sp.cancelPersists = stopCancel, rapid.Bool().Draw(rt, "second-cancel-persists")
+	case x < 5 && len(ocb) > 0:
+		sp.k, sp.after = ocb[rapid.IntRange(0, len(ocb)-1).Draw(rt, "second-commit-stop")], false
+		sp.kind = stopHold
+		if rapid.Bool().Draw(rt, "second-commit-fails") {
+			sp.kind = stopFail
+		}
+	}
+	return sp
 }
